@@ -5,6 +5,7 @@ of a Boolean network.
 
 from __future__ import annotations
 
+import copy
 from typing import TYPE_CHECKING, Literal
 
 if TYPE_CHECKING:
@@ -152,6 +153,25 @@ def cleanup_network(network: BooleanNetwork) -> BooleanNetwork:
         raise AssertionError(
             f"Parametrized networks are not supported. Found implicit parameters: {names}."
         )
+
+    # A free input (no update function, no regulators) never changes its value. Make that explicit:
+    # without an update function, the symbolic encoding treats the input as an uninterpreted
+    # parameter (its value may "change" to the unknown parameter value), which disagrees with the
+    # Petri net encoding and corrupts attractor searches in nodes where the input is not fixed.
+    free_inputs = [
+        v
+        for v in network.variables()
+        if network.get_update_function(v) is None
+        and len(network.predecessors(v)) == 0
+    ]
+    if len(free_inputs) > 0:
+        network = copy.copy(network)
+        for v in free_inputs:
+            name = network.get_variable_name(v)
+            network.add_regulation(
+                {"source": name, "target": name, "essential": True, "sign": "+"}
+            )
+            network.set_update_function(v, name)
 
     return network.infer_valid_graph()
 
